@@ -616,10 +616,14 @@ def check_case(ctx, case, src, ids, im, mo):
                     ctx.bump("cpython_unboundlocal")
                     if (ex["line"], ex["name"]) in ps_ubl:
                         pass
-                    elif ex["type"] == "UnboundLocalError" and ex["name"] in comp_targets(case["prog"]):
+                    elif (ex["type"] == "UnboundLocalError" or "free variable" in ex.get("msg", "")) \
+                            and ex["name"] in comp_targets(case["prog"]):
                         # CPython 3.12.1 (PEP 709 inlining): a name that is the target of one inlined
                         # comprehension is read as an (unbound) fast local inside a later comprehension of
-                        # the same function.  Interpreter quirk, outside PySem; the run is not compared.
+                        # the same function - or, when a sibling lambda / def closes over that name, as an
+                        # unbound cell ("cannot access free variable ... in enclosing scope", a NameError) although
+                        # the language resolves it to the enclosing function's or the global binding.
+                        # Interpreter quirk, outside PySem; the run is not compared.
                         ctx.bump("cpython_pep709_quirk")
                     else:
                         ctx.disagreement("CPython raised %s but PySem has no failing local lookup there" % ex["type"],
